@@ -35,7 +35,7 @@ type Case struct {
 
 func setup() {
 	c := ev.C()
-	c.Rule = "histories of ADD/REPLACE/DELETE over ipv4/ipv6/mpls/nhg/nh in 3 network instances with a small colliding key universe (rapid, model-aimed) plus dependency graphs in disturbed arrival orders (held chains, dependencies deleted while waited for, doomed held REPLACEs) plus all histories of length<=3 over a 24-step alphabet, run against rib.RIB (L1; one random history in eight on a RIB built with DisableRIBCheckFn and a model without reference checks), server.Modify/Get over in-process streams (L2) and - one L2 history in four - the same server behind a real grpc.Server over bufconn (L3: real codec, HTTP/2 streams); after every step: relation model, pure fold of acknowledged ops, held-set and counter invariants. Non-trivial = history in which an acknowledged ADD/REPLACE changed an installed key's payload, or an acknowledged DELETE removed an installed key, or a held op was acknowledged later, or a flush left entries in other NIs; distinct by FNV-64 of the canonical case JSON."
+	c.Rule = "histories of ADD/REPLACE/DELETE over ipv4/ipv6/mpls/nhg/nh in 3 network instances with a small colliding key universe (rapid, model-aimed) plus dependency graphs in disturbed arrival orders (held chains, dependencies deleted while waited for, doomed held REPLACEs) plus all histories of length<=3 over a 24-step alphabet, run against rib.RIB (L1; one random history in eight on a RIB built with DisableRIBCheckFn and a model without reference checks), server.Modify/Get over in-process streams (L2) and - one L2 history in four - the same server behind a real grpc.Server over bufconn (L3: real codec, HTTP/2 streams); after every step: relation model, pure fold of acknowledged ops, held-set and counter invariants. Non-trivial = history in which an acknowledged ADD/REPLACE changed an installed key's payload, or an acknowledged DELETE removed an installed key, or a held op was acknowledged later, or a flush left entries in other NIs; distinct by FNV-64 of the canonical case JSON. Later additions: harness-owned wall clock stepped/frozen at drawn steps; alias spellings of one prefix in the key universe; ids spanning the uint64 range; generator intent 'around a held operation'; at L2/L3 the last network instance may be created at runtime at a drawn step; one shard runs with glog -v=2."
 	c.Assumptions = []string{
 		"payload generators only emit schema-valid values (labels 16..1048575, canonical prefixes, non-empty metadata)",
 		"installed state at L1 is read through RIBContents + rib.Concrete*Proto, the converters Get uses",
